@@ -396,6 +396,31 @@ pub fn gen_gram(rng: &mut Rng) -> Gram {
     Gram { rules, lexemes }
 }
 
+/// "diamond" grammars: several alternatives share a middle lexeme, so that different histories reach
+/// the same lexer state at the same row index while what may follow differs (mask-cache keys collide)
+pub fn gen_diamond_gram(rng: &mut Rng) -> Gram {
+    let n = rng.range(2, 3);
+    let lefts = ["a", "c", "e"];
+    let rights = ["b", "d", "x"];
+    let mid = match rng.below(3) {
+        0 => Rx::Rep(Box::new(Rx::Class(vec![(b'0', b'1')])), 1, None),
+        1 => Rx::Rep(Box::new(Rx::Class(vec![(b'0', b'1')])), 1, Some(3)),
+        _ => Rx::Lit("0".into()),
+    };
+    let mut lexemes: Vec<Rx> = vec![mid];
+    let mut alts = vec![];
+    for i in 0..n {
+        lexemes.push(Rx::Lit(lefts[i].into()));
+        lexemes.push(Rx::Lit(rights[i].into()));
+        let mut alt = vec![Sym::T(1 + 2 * i), Sym::T(0), Sym::T(2 + 2 * i)];
+        if rng.chance(1, 3) {
+            alt.push(Sym::T(0));
+        }
+        alts.push(alt);
+    }
+    Gram { rules: vec![alts], lexemes }
+}
+
 // ------------------------------------------------------------------ tokenizer env
 pub struct VEnv {
     pub trie: TokTrie,
@@ -501,6 +526,25 @@ pub fn single_byte_vocab() -> (Vec<Vec<u8>>, u32) {
     let mut ws: Vec<Vec<u8>> = (0..=255u8).map(|b| vec![b]).collect();
     ws.push(b"\xFF<|eos|>".to_vec());
     (ws, 256)
+}
+
+/// tokenizer with a second end-of-sequence token (TokTrie::with_eos_tokens)
+pub fn make_env2(words: &[Vec<u8>], eos: u32, extra_eos: Option<u32>, canonical: bool) -> TokEnv {
+    let info = TokRxInfo::new(words.len() as u32, eos);
+    let trie = TokTrie::from(&info, words);
+    let trie = match extra_eos {
+        Some(x) => trie.with_eos_tokens(&[eos, x]),
+        None => trie,
+    };
+    Arc::new(VEnv { trie, canonical })
+}
+
+pub fn vocab_sx2(ws: &[Vec<u8>], eos: u32, extra_eos: Option<u32>) -> Vec<Sx> {
+    let mut e = vec![int(eos)];
+    if let Some(x) = extra_eos {
+        e.push(int(x));
+    }
+    vec![tagged("vocab", ws.iter().map(|w| hex(w)).collect()), tagged("eos", e)]
 }
 
 pub fn vocab_sx(ws: &[Vec<u8>], eos: u32) -> Vec<Sx> {
